@@ -21,7 +21,10 @@
 //! Known deviation (DESIGN.md section 9 item 3): when B has two or more incomparable minimal
 //! elements below one head, the bisector reports a strict non-empty subset of them. It gets
 //! the narrow signature `C37/multi-minimal/subset` exactly when |min(B)| >= 2, the reported
-//! set is a non-empty strict subset of min(B) (hence every reported commit is in min(B)).
+//! set is a non-empty strict subset of min(B) (hence every reported commit is in min(B)) and
+//! every head of the range has a reported commit among its ancestors-or-self (jj reports one
+//! first bad commit per disjoint head); a range head left without an answer gets
+//! `C37/result/head-without-first-bad`.
 
 use std::collections::BTreeMap;
 use std::collections::BTreeSet;
@@ -405,6 +408,17 @@ fn check_case(repo: &dyn Repo, g: &G, ids: &Ids, case: &Case) -> Result<CaseInfo
         // here: found is a non-empty strict subset of min(B), so |min(B)| >= 2
         if min_set.len() < 2 || !found_set.is_subset(&min_set) {
             machinery_failure("oracle inconsistency in the subset classification");
+        }
+        // The known deviation is "one first bad commit per disjoint head of the range": every
+        // head of the range must have a reported commit among its ancestors-or-self. An arm of
+        // a multi-head range that is left without any answer is a different defect.
+        if let Some(&h) = heads.iter().find(|&&h| !found.iter().any(|&r| g.is_anc(r, h))) {
+            return Err(Fail {
+                sig: "C37/result/head-without-first-bad".into(),
+                msg: format!(
+                    "{show}: Found({found:?}) reports no first bad commit at or below the range head n{h} (heads {heads:?}); earliest bad commits are {min_b:?} (questions {asked:?})"
+                ),
+            });
         }
         return Err(Fail {
             sig: "C37/multi-minimal/subset".into(),
